@@ -78,10 +78,10 @@ pub fn def(ctx: &Ctx) -> PropDef {
     let depth = prop_oneof![2 => Just(16usize), 2 => Just(64usize), 3 => Just(560usize), 3 => Just(1100usize), 2 => Just(2300usize), 2 => 1usize..2400];
     let d2 = depth.clone();
     let mut subs: Vec<Box<dyn SubCheck>> = vec![
-        PSub::boxed("stream/rng", t.pick(2500, 150_000), move || {
+        PSub::boxed("stream/rng", t.pick(6000, 600_000), move || {
             (hc_seed(), depth.clone()).prop_map(|(seed, depth)| Case { seed, depth, core_route: false }).boxed()
         }, check),
-        PSub::boxed("stream/core", t.pick(2500, 150_000), move || {
+        PSub::boxed("stream/core", t.pick(6000, 600_000), move || {
             (hc_seed(), d2.clone()).prop_map(|(seed, depth)| Case { seed, depth, core_route: true }).boxed()
         }, check),
     ];
@@ -95,7 +95,7 @@ pub fn def(ctx: &Ctx) -> PropDef {
             })
             .boxed()
     }, check));
-    let long = t.pick(60_000usize, 2_000_000);
+    let long = t.pick(150_000usize, 6_000_000);
     subs.push(PSub::boxed("long/rng", t.pick(12, 40), move || hc_seed().prop_map(move |seed| Case { seed, depth: long, core_route: false }).boxed(), check));
     subs.push(PSub::boxed("long/core", t.pick(12, 40), move || hc_seed().prop_map(move |seed| Case { seed, depth: long, core_route: true }).boxed(), check));
     PropDef {
